@@ -28,6 +28,15 @@ func HarnessC16Envelope() {
 		return
 	}
 	vrt.Assert(err == nil, "wrapping succeeds for a non-empty destination")
+	if vrt.Bool("another.message.wrapped.in.between") {
+		// envelopes are independent values: wrapping a second message must not disturb the first envelope
+		// (the second one is as small as an envelope gets, so that natively it fits into any buffer the first one used)
+		other := message.NewMessage("o", nil)
+		env2, err := wrapMessageInEnvelope("e", other)
+		vrt.Assert(err == nil, "wrapping the second message succeeds")
+		d2, b2, err := unwrapMessageFromEnvelope(env2)
+		vrt.Assert(err == nil && d2 == "e" && b2.UUID == "o" && len(b2.Payload) == 0, "the second envelope round-trips")
+	}
 	dest, back, err := unwrapMessageFromEnvelope(env)
 	vrt.Assert(err == nil, "unwrapping what was wrapped succeeds")
 	vrt.Assert(dest == topic, "the destination topic survives the round trip")
